@@ -47,6 +47,9 @@ def run(fn, case, timeout=120.0):
                 os.dup2(devnull, 1)
                 os.dup2(devnull, 2)
             try:
+                from vf import gen_common
+
+                gen_common.EXCLUDED.clear()  # the child reports only its own steering
                 verdict = fn(case, scratch)
             except BaseException:  # harness failure inside the child
                 verdict = {"harness_error": traceback.format_exc()[-4000:]}
